@@ -73,6 +73,7 @@ def geometry_job(job):
     neutral_rel = rf.trans_inv(sp.getBottomT().gTM()) @ sp.getTopT().gTM()
     h = float(neutral_rel[2, 3])
     grav = np.asarray(sp.getGrav(), dtype=float)
+    bl, tl = spzoo.tables(sp)          # plate-fixed joint coordinates, read once at the neutral pose (and after a re-spin)
     for stage in ("fresh", "moved", "respun"):
         with quiet():
             if stage == "moved":
@@ -81,6 +82,7 @@ def geometry_job(job):
             elif stage == "respun":
                 sp.spinCustom(rng.uniform(-1.0, 1.0))
                 base = sp.getBottomT().gTM()
+                bl, tl = spzoo.tables(sp)
         for _ in range(n_poses):
             rel = spzoo.workspace_pose(rng, h)
             T = base @ rel
@@ -142,12 +144,16 @@ def geometry_job(job):
             with quiet():
                 tau_c, _w = sp.carryMassCalc(Wrench(F.reshape((6, 1)).copy()))
                 tau_c = data(tau_c)
+                # weights rebuilt from the constructor data and the pose only: the top plate's at its origin, each shaft's on
+                # the leg axis, the documented distance (shaft COG) below its top joint
                 W = F.copy()
-                top_p = sp.getTopT().gTM()[:3, 3]
+                top_p = T[:3, 3]
                 ftop = grav * p["masses"][3]
                 W += np.concatenate([np.cross(top_p, ftop), ftop])
+                _, pb, pt = spzoo.oracle_lens(bl, tl, base, T)
                 for i in range(6):
-                    loc = sp.getActuatorLoc(i, "t").gTM()[:3, 3]
+                    d = pb[:, i] - pt[:, i]
+                    loc = pt[:, i] + p["cog"][1] * d / np.linalg.norm(d)
                     fs = grav * p["masses"][1]
                     W += np.concatenate([np.cross(loc, fs), fs])
             want = np.linalg.pinv(J).T @ W if False else np.linalg.solve(J.T, W)
@@ -224,7 +230,7 @@ def run(ctx):
                 "(fresh, moved, re-spun), in-workspace poses with cond(J^-1) <= 1e4, random twists and wrenches (|F| <= "
                 "100 per component); distinct = distinct (law, region, arguments)",
     }, assumptions=["K1 differentiates the code's own IK lengths (Richardson, steps 1e-3 / 5e-4)",
-                    "weights for K4 are rebuilt from the masses handed to the constructor, getGrav() and getActuatorLoc()"])
+                    "weights for K4 are rebuilt from the masses and the shaft COG distance handed to the constructor, getGrav(), and the joint tables read once at the neutral pose"])
 
 
 def replay(ctx, rep):
